@@ -92,6 +92,12 @@ def check_arc(case, ctx):
         stacked = case.get("stacked", lon_in.size > 1 and build.small_hash(case, 14) % 4 == 0)
         # "coordinates : list or array": one stacked array is the form in which the function itself returns them (finding D20)
         given = np.array([lon_in, lat_in]) if stacked else [lon_in.copy(), lat_in.copy()]
+        if not stacked and lon_in.ndim == 1 and case.get("series", build.small_hash(case, 19) % 4 == 0):
+            # columns of a table (grid_to_table, a CSV): pandas Series whose index counts the rows from 0
+            import pandas as pd
+
+            given = [pd.Series(lon_in.copy()), pd.Series(lat_in.copy())]
+            ctx.label("coordinates_as_series")
         (lon, lat), region = vd.longitude_continuity(given, list(region_in))
         if stacked:
             ctx.label("coordinates_as_one_array")
